@@ -101,22 +101,32 @@ func (lm *levelManager) iterators(opt *utils.Options) []utils.Iterator {
 
 // Get searches levels from L0 to Ln and returns the newest visible entry for key.
 func (lm *levelManager) Get(key []byte) (*kv.Entry, error) {
-	var (
-		entry *kv.Entry
-		err   error
-	)
-	// L0 layer query
-	if entry, err = lm.levels[0].Get(key); entry != nil {
-		return entry, err
-	}
-	// L1-7 layer query
-	for level := 1; level < lm.opt.MaxLevelNum; level++ {
-		ld := lm.levels[level]
-		if entry, err = ld.Get(key); entry != nil {
-			return entry, err
+	// Keep the highest version <= the requested one across all levels (a deeper
+	// level can hold a higher version when versions arrive out of order); on
+	// equal versions the shallower level wins. An exact match ends the search.
+	want := kv.ParseTs(key)
+	var best *kv.Entry
+	for level := 0; level < lm.opt.MaxLevelNum; level++ {
+		entry, _ := lm.levels[level].Get(key)
+		if entry == nil {
+			continue
 		}
+		if best == nil || entry.Version > best.Version {
+			if best != nil {
+				best.DecrRef()
+			}
+			best = entry
+			if best.Version == want {
+				break
+			}
+			continue
+		}
+		entry.DecrRef()
 	}
-	return entry, utils.ErrKeyNotFound
+	if best != nil {
+		return best, nil
+	}
+	return nil, utils.ErrKeyNotFound
 }
 
 func (lm *levelManager) loadManifest() (err error) {
